@@ -18,6 +18,7 @@ package main
 import (
 	"bytes"
 	"context"
+	"encoding/binary"
 	"fmt"
 	"hash"
 	"io"
@@ -30,6 +31,7 @@ import (
 	"github.com/gauss-project/aurorafs/pkg/file"
 	"github.com/gauss-project/aurorafs/pkg/file/joiner"
 	"github.com/gauss-project/aurorafs/pkg/file/pipeline"
+	pbmt "github.com/gauss-project/aurorafs/pkg/file/pipeline/bmt"
 	"github.com/gauss-project/aurorafs/pkg/file/pipeline/builder"
 	encw "github.com/gauss-project/aurorafs/pkg/file/pipeline/encryption"
 	"github.com/gauss-project/aurorafs/pkg/file/pipeline/feeder"
@@ -98,6 +100,8 @@ type jcase struct {
 	HS    int     `json:"hs,omitempty"`
 	KL    int     `json:"kl,omitempty"`
 	Segs  [][]int `json:"segs,omitempty"`
+	N     int     `json:"n,omitempty"`    // lift: identical full chunks
+	Tail  int     `json:"tail,omitempty"` // lift: bytes of the shorter last chunk
 	Size  int     `json:"size"`
 	DSeed uint64  `json:"dseed"`
 	Store string  `json:"store"` // map | mock | localstore
@@ -147,9 +151,135 @@ var regOnce sync.Once
 
 func main() {
 	run := hx.Start("C01", "Aurora.C01.Corr",
-		"real builder pipeline + real joiner: content sizes 0, 1, 31..33, around 4 KiB, 256 KiB +-1, multiples of 256 KiB +-1 up to 40 chunks (100 thorough), random; write splits: one write, tiny, around the chunk size, several chunks at once, with empty writes, through FeedPipeline; stores: copying map, storage/mock, localstore; reads: Size, JoinReadAll, ReadAt at boundary-dense offsets with cap >= len, Read/Seek sequences; non-trivial = more than one chunk, or at least two writes, or a read with cap > len; distinct by (size, content seed, store, split, ops)")
+		"real builder pipeline + real joiner: content sizes 0, 1, 31..33, around 4 KiB, 256 KiB +-1, multiples of 256 KiB +-1 up to 40 chunks (100 thorough), random; write splits: one write, tiny, around the chunk size, several chunks at once, with empty writes, through FeedPipeline; stores: copying map, storage/mock, localstore; lift corpus: plain (8192, 8193, 8193+777 B, 16387 chunks) and encrypted (4096+1 B, 4097, 4097+777 B, 8195 chunks) files of identical chunks built through the real Encryption/BMT/Store/HashTrie stages without the feeder (1-4 GiB, two and three levels), read around every level boundary; reads: Size, JoinReadAll, ReadAt at boundary-dense offsets with cap >= len, Read/Seek sequences; non-trivial = more than one chunk, or at least two writes, or a read with cap > len; distinct by (size, content seed, store, split, ops)")
 	r := run.R
 	ctx := context.Background()
+
+	var doLift func(jc jcase)
+	runOps := func(jc jcase, j file.Joiner, size int, expect func(at int64, n int) []byte, toCoq bool) ([]string, bool, bool) {
+		nontrivial := false
+		pos := int64(0)
+		var steps []string
+		for i, o := range jc.Ops {
+			switch o.Kind {
+			case "readat", "read":
+				buf := make([]byte, o.Len, o.Cap)
+				full := buf[:o.Cap]
+				for k := range full {
+					full[k] = canary
+				}
+				at := o.Off
+				if o.Kind == "read" {
+					at = pos
+				}
+				var n int
+				var rerr error
+				pk, pm := hx.Guard(func() {
+					if o.Kind == "readat" {
+						n, rerr = j.ReadAt(buf, o.Off)
+					} else {
+						n, rerr = j.Read(buf)
+					}
+				})
+				if pk {
+					run.Violate(hx.Violation{Sig: o.Kind + ":panic", Detail: pm, Case: jc})
+					return steps, nontrivial, false
+				}
+				ec := uint64(0)
+				if rerr == io.EOF {
+					ec = 1
+				} else if rerr != nil {
+					ec = 2
+				}
+				if toCoq {
+					d1, d2 := dig(full)
+					fb0 := "None"
+					if o.Cap <= 40 {
+						fb0 = hx.CoqSome(hx.CoqBytes(full))
+					}
+					ob := hx.CoqApp("ObsRead", hx.CoqZ(int64(n)), hx.CoqN(ec), hx.CoqPair(hx.CoqN(d1), hx.CoqN(d2)), fb0)
+					op := hx.CoqApp("ORead", hx.CoqZ(int64(o.Len)), hx.CoqZ(int64(o.Cap)))
+					if o.Kind == "readat" {
+						op = hx.CoqApp("OReadAt", hx.CoqZ(int64(o.Len)), hx.CoqZ(int64(o.Cap)), hx.CoqZ(o.Off))
+					}
+					steps = append(steps, hx.CoqPair(op, ob))
+				}
+				if o.Cap > o.Len {
+					nontrivial = true
+				}
+				run.OracleChecked(3)
+				where := fmt.Sprintf("op %d %s(len=%d,cap=%d) at %d, size %d", i, o.Kind, o.Len, o.Cap, at, size)
+				if n > o.Len {
+					run.Violate(hx.Violation{Sig: "readat:count>len", Detail: where + fmt.Sprintf(": returned %d", n), Case: jc})
+					n = o.Len
+				}
+				for k := o.Len; k < o.Cap; k++ {
+					if full[k] != canary {
+						run.Violate(hx.Violation{Sig: "readat:writes-beyond-len", Detail: where, Case: jc})
+						break
+					}
+				}
+				if at >= int64(size) {
+					if n != 0 || rerr != io.EOF {
+						run.Violate(hx.Violation{Sig: "readat:no-eof-at-end", Detail: where + fmt.Sprintf(": n=%d err=%v", n, rerr), Case: jc})
+					}
+				} else {
+					want := o.Len
+					if size-int(at) < want {
+						want = size - int(at)
+					}
+					if rerr != nil {
+						run.Violate(hx.Violation{Sig: "readat:error-inside-file", Detail: where + ": " + rerr.Error(), Case: jc})
+					} else if n != want {
+						run.Violate(hx.Violation{Sig: "readat:count!=min(len,size-off)", Detail: where + fmt.Sprintf(": n=%d want %d", n, want), Case: jc})
+					} else if !bytes.Equal(full[:n], expect(at, n)) {
+						run.Violate(hx.Violation{Sig: "readat:content", Detail: where + ": bytes differ from what was uploaded", Case: jc})
+					}
+				}
+				if o.Kind == "read" && (rerr == nil || rerr == io.EOF) {
+					pos += int64(n)
+				}
+			case "seek":
+				var pp int64
+				var serr error
+				pk, pm := hx.Guard(func() { pp, serr = j.Seek(o.Off, o.Whence) })
+				if pk {
+					run.Violate(hx.Violation{Sig: "seek:panic", Detail: pm, Case: jc})
+					return steps, nontrivial, false
+				}
+				ec := uint64(0)
+				switch {
+				case serr == nil:
+				case serr == io.EOF:
+					ec = 1
+				case serr.Error() == "seek: invalid whence":
+					ec = 2
+				case serr.Error() == "seek: invalid offset":
+					ec = 3
+				default:
+					ec = 9
+				}
+				if toCoq {
+					steps = append(steps, hx.CoqPair(hx.CoqApp("OSeek", hx.CoqZ(o.Off), hx.CoqZ(int64(o.Whence))), hx.CoqApp("ObsSeek", hx.CoqZ(pp), hx.CoqN(ec))))
+				}
+				run.OracleChecked(1)
+				if serr == nil {
+					want := o.Off
+					switch o.Whence {
+					case 1:
+						want = pos + o.Off
+					case 2:
+						want = int64(size) - o.Off
+					}
+					if o.Whence < 0 || o.Whence > 2 || pp != want || pp < 0 || pp > int64(size) {
+						run.Violate(hx.Violation{Sig: "seek:wrong-position", Detail: fmt.Sprintf("op %d Seek(%d,%d) from %d -> %d", i, o.Off, o.Whence, pos, pp), Case: jc})
+					}
+					pos = pp
+				}
+			}
+		}
+		return steps, nontrivial, true
+	}
 
 	doCase := func(jc jcase, toCoq bool) {
 		data := hx.NewRand(jc.DSeed).Bytes(jc.Size)
@@ -215,127 +345,11 @@ func main() {
 		if size != int64(jc.Size) || j.Size() != int64(jc.Size) {
 			run.Violate(hx.Violation{Sig: "size:!=content-length", Detail: fmt.Sprintf("Size()=%d New=%d content %d", j.Size(), size, jc.Size), Case: jc, Impl: j.Size(), Want: jc.Size})
 		}
-		nontrivial := jc.Size > CS || len(jc.Cuts) > 1
-		pos := int64(0)
-		var steps []string
-		for i, o := range jc.Ops {
-			switch o.Kind {
-			case "readat", "read":
-				buf := make([]byte, o.Len, o.Cap)
-				full := buf[:o.Cap]
-				for k := range full {
-					full[k] = canary
-				}
-				at := o.Off
-				if o.Kind == "read" {
-					at = pos
-				}
-				var n int
-				var rerr error
-				pk, pm := hx.Guard(func() {
-					if o.Kind == "readat" {
-						n, rerr = j.ReadAt(buf, o.Off)
-					} else {
-						n, rerr = j.Read(buf)
-					}
-				})
-				if pk {
-					run.Violate(hx.Violation{Sig: o.Kind + ":panic", Detail: pm, Case: jc})
-					return
-				}
-				ec := uint64(0)
-				if rerr == io.EOF {
-					ec = 1
-				} else if rerr != nil {
-					ec = 2
-				}
-				if toCoq {
-					d1, d2 := dig(full)
-					fb0 := "None"
-					if o.Cap <= 40 {
-						fb0 = hx.CoqSome(hx.CoqBytes(full))
-					}
-					ob := hx.CoqApp("ObsRead", hx.CoqZ(int64(n)), hx.CoqN(ec), hx.CoqPair(hx.CoqN(d1), hx.CoqN(d2)), fb0)
-					op := hx.CoqApp("ORead", hx.CoqZ(int64(o.Len)), hx.CoqZ(int64(o.Cap)))
-					if o.Kind == "readat" {
-						op = hx.CoqApp("OReadAt", hx.CoqZ(int64(o.Len)), hx.CoqZ(int64(o.Cap)), hx.CoqZ(o.Off))
-					}
-					steps = append(steps, hx.CoqPair(op, ob))
-				}
-				if o.Cap > o.Len {
-					nontrivial = true
-				}
-				run.OracleChecked(3)
-				where := fmt.Sprintf("op %d %s(len=%d,cap=%d) at %d, size %d", i, o.Kind, o.Len, o.Cap, at, jc.Size)
-				if n > o.Len {
-					run.Violate(hx.Violation{Sig: "readat:count>len", Detail: where + fmt.Sprintf(": returned %d", n), Case: jc})
-					n = o.Len
-				}
-				for k := o.Len; k < o.Cap; k++ {
-					if full[k] != canary {
-						run.Violate(hx.Violation{Sig: "readat:writes-beyond-len", Detail: where, Case: jc})
-						break
-					}
-				}
-				if at >= int64(jc.Size) {
-					if n != 0 || rerr != io.EOF {
-						run.Violate(hx.Violation{Sig: "readat:no-eof-at-end", Detail: where + fmt.Sprintf(": n=%d err=%v", n, rerr), Case: jc})
-					}
-				} else {
-					want := o.Len
-					if jc.Size-int(at) < want {
-						want = jc.Size - int(at)
-					}
-					if rerr != nil {
-						run.Violate(hx.Violation{Sig: "readat:error-inside-file", Detail: where + ": " + rerr.Error(), Case: jc})
-					} else if n != want {
-						run.Violate(hx.Violation{Sig: "readat:count!=min(len,size-off)", Detail: where + fmt.Sprintf(": n=%d want %d", n, want), Case: jc})
-					} else if !bytes.Equal(full[:n], data[at:int(at)+n]) {
-						run.Violate(hx.Violation{Sig: "readat:content", Detail: where + ": bytes differ from what was uploaded", Case: jc})
-					}
-				}
-				if o.Kind == "read" && (rerr == nil || rerr == io.EOF) {
-					pos += int64(n)
-				}
-			case "seek":
-				var pp int64
-				var serr error
-				pk, pm := hx.Guard(func() { pp, serr = j.Seek(o.Off, o.Whence) })
-				if pk {
-					run.Violate(hx.Violation{Sig: "seek:panic", Detail: pm, Case: jc})
-					return
-				}
-				ec := uint64(0)
-				switch {
-				case serr == nil:
-				case serr == io.EOF:
-					ec = 1
-				case serr.Error() == "seek: invalid whence":
-					ec = 2
-				case serr.Error() == "seek: invalid offset":
-					ec = 3
-				default:
-					ec = 9
-				}
-				if toCoq {
-					steps = append(steps, hx.CoqPair(hx.CoqApp("OSeek", hx.CoqZ(o.Off), hx.CoqZ(int64(o.Whence))), hx.CoqApp("ObsSeek", hx.CoqZ(pp), hx.CoqN(ec))))
-				}
-				run.OracleChecked(1)
-				if serr == nil {
-					want := o.Off
-					switch o.Whence {
-					case 1:
-						want = pos + o.Off
-					case 2:
-						want = int64(jc.Size) - o.Off
-					}
-					if o.Whence < 0 || o.Whence > 2 || pp != want || pp < 0 || pp > int64(jc.Size) {
-						run.Violate(hx.Violation{Sig: "seek:wrong-position", Detail: fmt.Sprintf("op %d Seek(%d,%d) from %d -> %d", i, o.Off, o.Whence, pos, pp), Case: jc})
-					}
-					pos = pp
-				}
-			}
+		steps, nt, okOps := runOps(jc, j, jc.Size, func(at int64, n int) []byte { return data[at : int(at)+n] }, toCoq)
+		if !okOps {
+			return
 		}
+		nontrivial := nt || jc.Size > CS || len(jc.Cuts) > 1
 		if jc.All {
 			j2, _, _ := joiner.New(ctx, st, storage.ModeGetRequest, root)
 			var out bytes.Buffer
@@ -372,6 +386,98 @@ func main() {
 		}
 	}
 
+	// ---- "lift": files of n identical chunks (+ tail) through the real writer stages with the
+	// feeder left out (the repeated chunk passes the stages once; its (span, ref, key) is handed to
+	// the hash-trie writer n-1 more times), so that two- and three-level trees above 1 GiB
+	// (encrypted, branching 4096) / 2 GiB (plain, 8192) cost milliseconds and a few stored chunks.
+	liftByte := func(n, o int64) byte {
+		if o < n*int64(CS) {
+			return byte(1 + (o%int64(CS)+8)%251)
+		}
+		return byte(7 + (o-n*int64(CS)+8)%251)
+	}
+	doLift = func(jc jcase) {
+		st := newMapStore()
+		var tw, top pipeline.ChainWriter
+		if jc.Enc {
+			short := func() pipeline.ChainWriter {
+				return encw.NewEncryptionWriter(encryption.NewChunkEncrypter(), pbmt.NewBmtWriter(store.NewStoreWriter(ctx, st, storage.ModePutUpload, nil)))
+			}
+			tw = hashtrie.NewHashTrieWriter(boson.ChunkSize, boson.Branches/2, boson.HashSize+encryption.KeyLength, short)
+			top = encw.NewEncryptionWriter(encryption.NewChunkEncrypter(), pbmt.NewBmtWriter(store.NewStoreWriter(ctx, st, storage.ModePutUpload, tw)))
+		} else {
+			short := func() pipeline.ChainWriter {
+				return pbmt.NewBmtWriter(store.NewStoreWriter(ctx, st, storage.ModePutUpload, nil))
+			}
+			tw = hashtrie.NewHashTrieWriter(boson.ChunkSize, boson.Branches, boson.HashSize, short)
+			top = pbmt.NewBmtWriter(store.NewStoreWriter(ctx, st, storage.ModePutUpload, tw))
+		}
+		chunkOf := func(size int, fill byte) *pipeline.PipeWriteArgs {
+			d := make([]byte, 8+size)
+			binary.LittleEndian.PutUint64(d[:8], uint64(size))
+			for i := 8; i < len(d); i++ {
+				d[i] = fill + byte(i%251)
+			}
+			return &pipeline.PipeWriteArgs{Data: d, Span: append([]byte(nil), d[:8]...)}
+		}
+		var ref []byte
+		var err error
+		pk, pm := hx.Guard(func() {
+			f := chunkOf(CS, 1)
+			if err = top.ChainWrite(f); err != nil {
+				return
+			}
+			for i := 1; i < jc.N; i++ {
+				if err = tw.ChainWrite(&pipeline.PipeWriteArgs{Ref: f.Ref, Span: f.Span, Key: f.Key}); err != nil {
+					return
+				}
+			}
+			if jc.Tail > 0 {
+				if err = top.ChainWrite(chunkOf(jc.Tail, 7)); err != nil {
+					return
+				}
+			}
+			ref, err = top.Sum()
+		})
+		key := fmt.Sprintf("lift|%v|%d|%d|%v", jc.Enc, jc.N, jc.Tail, jc.Ops)
+		size := jc.N*CS + jc.Tail
+		run.OracleChecked(1)
+		if pk || err != nil {
+			run.AddCase("", jc, key, false)
+			run.Violate(hx.Violation{Sig: "lift:upload-error", Detail: fmt.Sprintf("panic=%v %s err=%v", pk, pm, err), Case: jc})
+			return
+		}
+		var j file.Joiner
+		var sz int64
+		pk, pm = hx.Guard(func() { j, sz, err = joiner.New(ctx, st, storage.ModeGetRequest, boson.NewAddress(ref)) })
+		if pk || err != nil {
+			run.AddCase("", jc, key, false)
+			run.Violate(hx.Violation{Sig: "open:error", Detail: fmt.Sprintf("joiner.New failed: panic=%v %s err=%v", pk, pm, err), Case: jc})
+			return
+		}
+		run.OracleChecked(1)
+		if sz != int64(size) || j.Size() != int64(size) {
+			run.Violate(hx.Violation{Sig: "size:!=content-length", Detail: fmt.Sprintf("Size()=%d New=%d content %d", j.Size(), sz, size), Case: jc, Impl: j.Size(), Want: size})
+		}
+		expect := func(at int64, n int) []byte {
+			out := make([]byte, n)
+			for i := range out {
+				out[i] = liftByte(int64(jc.N), at+int64(i))
+			}
+			return out
+		}
+		steps, _, ok := runOps(jc, j, size, expect, true)
+		if !ok {
+			return
+		}
+		e := "false"
+		if jc.Enc {
+			e = "true"
+		}
+		run.AddCase(hx.CoqApp("CLiftUp", e, hx.CoqZ(int64(jc.N)), hx.CoqZ(int64(jc.Tail)), hx.CoqList(steps, "op * obs")), jc, key, true)
+		run.Hist(fmt.Sprintf("lift.enc=%v.n=%d.tail=%d", jc.Enc, jc.N, jc.Tail))
+	}
+
 	if run.Replay != "" {
 		var jc jcase
 		if err := run.ReadReplay(&jc); err != nil {
@@ -379,6 +485,8 @@ func main() {
 		}
 		if jc.Kind == "enctoy" {
 			doEncToy(run, jc)
+		} else if jc.Kind == "lift" {
+			doLift(jc)
 		} else {
 			doCase(jc, jc.Size <= 300 && jc.Store == "map" && !jc.Enc)
 		}
@@ -508,6 +616,39 @@ func main() {
 			left -= c
 		}
 		doCase(jcase{Size: size, DSeed: r.U64(), Store: "map", Feed: r.Chance(1, 4), Cuts: cuts, Ops: genOps(size, 3+r.Intn(4), false), All: true}, true)
+	}
+
+	// ---- lift corpus (every seed): the level boundaries of two- and three-level trees, plain and encrypted
+	for _, enc := range []bool{true, false} {
+		br := boson.Branches
+		if enc {
+			br = boson.Branches / 2
+		}
+		for _, sh := range []struct{ n, tail int }{{br, 1}, {br + 1, 0}, {br + 1, 777}, {2*br + 3, 0}} {
+			size := int64(sh.n)*int64(CS) + int64(sh.tail)
+			bd := int64(br) * int64(CS)
+			var ops []jop
+			for _, o := range []int64{bd - 100, bd - 1, bd, bd + 1, bd - int64(CS) - 3, bd + int64(CS) - 5, 2*bd - 7, size - 50, size, size + 1} {
+				if o < 0 {
+					continue
+				}
+				l := r.Pick([]int{1, 16, 64, 200})
+				if o == bd-100 {
+					l = 4096
+				}
+				c := l
+				if r.Chance(1, 3) {
+					c = l + 1 + r.Intn(40)
+				}
+				ops = append(ops, jop{Kind: "readat", Len: l, Cap: c, Off: o})
+			}
+			ops = append(ops, jop{Kind: "seek", Off: bd - 10, Whence: 0}, jop{Kind: "read", Len: 30, Cap: 30}, jop{Kind: "read", Len: 40, Cap: 64},
+				jop{Kind: "seek", Off: 5, Whence: 2}, jop{Kind: "read", Len: 10, Cap: 10}, jop{Kind: "seek", Off: int64(CS) - 3, Whence: 1}, jop{Kind: "read", Len: 8, Cap: 8})
+			for k := 0; k < 3; k++ {
+				ops = append(ops, jop{Kind: "readat", Len: 32, Cap: 32, Off: int64(r.U64()>>1) % size})
+			}
+			doLift(jcase{Kind: "lift", Enc: enc, N: sh.n, Tail: sh.tail, Ops: ops})
+		}
 	}
 
 	// ---- real sizes
